@@ -133,6 +133,7 @@ pub fn required_probes(property: &str) -> Vec<&'static str> {
         "C03" => vec!["relay_compared_steps", "relay_reply_ge_8196", "net_split_read"],
         "C04" => vec!["c04_pool_full", "c04_probe_served", "c04_step_waited_20ms"],
         "C12" => vec!["c12_checked_statements", "c12_nondefault_value_checked", "c12_parameter_status_seen"],
+        "C16" => vec!["c16_pause_interval", "c16_txn_sent_while_paused", "c16_client_held_then_released", "yield:pool.wait_paused.between"],
         "C08" => vec!["c08_execute_checked", "c08_execute_on_reused_connection", "c08_eviction_close_sent", "c08_reference_compared_steps"],
         _ => vec![],
     }
@@ -403,6 +404,7 @@ fn rule_of(property: &str) -> String {
         "C03" => "reply streams with row sizes around the 8196-byte flush threshold, multi-statement, notices, errors, portal suspension, COPY in/out/fail, pipelined batches; segmentation from 1-byte dribble to whole buffer, small send buffers, short reads",
         "C04" => "clients >> pool_size, both modes; every second run adds client aborts at PRNG points, server connection kills, connect timeouts shorter than hold times; capacity probe and admin console after quiescence",
         "C08" => "statement cache on, pool cache sizes {1,2,8}, 2-4 clients over 1-3 connections per server; shared names s1..s3 with per-client texts, identical texts shared between clients (attribution by bind parameter), Parse/Describe/Bind/Execute/Close in all groupings, re-Parse after Close, Parse errors, eviction pressure; every fifth run uses statement pairs whose (query, num_params, types) concatenations coincide",
+        "C16" => "PAUSE/RESUME cycles (global or per pool) by an admin client; workers running throughout, clients that are idle when the pause begins, clients arriving after the PAUSE acknowledgement, mid-transaction clients; both pool modes; random subset of the yield sites inside wait_paused and between wait_paused and checkout; RESUME at PRNG times including right after a held client's message went out",
         "C12" => "2-5 clients sharing 1-2 server connections; startup parameter sets and SET sequences of tracked and untracked parameters; every fourth run uses hostile values (quotes, backslashes, non-ASCII, empty)",
         _ => "see DESIGN.md",
     };
